@@ -101,7 +101,7 @@ def run(chk):
     if unpack is not None and isinstance(unpack.targets[0], ast.Tuple):
         fmt = folder.try_fold(unpack.value.args[0], sc, None)
         names = [dotted(e) for e in unpack.targets[0].elts]
-        off_ok = len(unpack.value.args) == 2 or folder.try_fold(unpack.value.args[2], sc, None) == 0
+        off_ok = len(unpack.value.args) == 2 or (len(unpack.value.args) == 3 and folder.try_fold(unpack.value.args[2], sc, None) == 0)
         chk.check(fmt in ("BB", "<BB", ">BB", "=BB") and len(names) == 2 and off_ok and src(unpack.value.args[1]) == "data",
                   "R2", f"{NMT}:NmtBase.on_command | unpack", f.loc(unpack),
                   f"command frame decoded with {fmt!r} into {names}: expected (cs, node id) from bytes 0 and 1")
